@@ -102,6 +102,15 @@ func (g *DependencyGraph) AddProvider(provider Provider) error {
 
 	// Create or update node
 	node, exists := g.nodes[nodeKey]
+
+	// Remember the previous state so that a rejected add leaves the graph untouched
+	var previousProvider Provider
+	if exists {
+		previousProvider = node.Provider
+	}
+	previousEdges, hadEdges := g.edges[nodeKey]
+	var createdNodes []NodeKey
+
 	if !exists {
 		node = &Node{
 			Key:          nodeKey,
@@ -133,6 +142,7 @@ func (g *DependencyGraph) AddProvider(provider Provider) error {
 				Dependencies: make([]NodeKey, 0),
 				Dependents:   make([]NodeKey, 0),
 			}
+			createdNodes = append(createdNodes, depKey)
 		}
 	}
 
@@ -148,9 +158,21 @@ func (g *DependencyGraph) AddProvider(provider Provider) error {
 
 	// Check for cycles immediately
 	if err := g.detectCyclesFrom(nodeKey); err != nil {
-		// Remove the node if it creates a cycle
-		delete(g.nodes, nodeKey)
-		delete(g.edges, nodeKey)
+		// Undo the add if it creates a cycle
+		for _, created := range createdNodes {
+			delete(g.nodes, created)
+		}
+		if exists {
+			node.Provider = previousProvider
+			node.Dependencies = previousEdges
+		} else {
+			delete(g.nodes, nodeKey)
+		}
+		if hadEdges {
+			g.edges[nodeKey] = previousEdges
+		} else {
+			delete(g.edges, nodeKey)
+		}
 		g.updateDegrees()
 		return err
 	}
